@@ -14,6 +14,7 @@ REGISTRY = {}
 CLAUSES = {
     "C01": ["C01_value", "C01_settles"],
     "C02": ["C02_bag", "C01_value", "C01_settles"],
+    "C11": ["C01_value", "R2_equal", "C11_range", "C01_settles"],
     "C20": ["C20_exposed", "C20_label", "C20_input", "C01_value", "C02_bag"],
 }
 
@@ -72,6 +73,8 @@ def compile_records(ctx, progs, opts=None, variants=None):
             job.update(opts or {})
             job.update(p.get("job", {}))
             job.update(ov)
+            if job.pop("__twin", False):
+                job["src"] = p["src2"]
             jobs.append(job)
     res = compile_all(jobs)
     out = {}
@@ -201,6 +204,38 @@ def c02(ctx):
                        "with the interpreter's bundle (map of non-zero members): a leaked operand, doubled or missing member fails")
     ctx.assumptions = ASSUME_BASE
     run_refine(ctx, sel, consts)
+
+
+def twin_item(p, rs, **extra):
+    it = {"id": p["id"], "stmts": p["stmts"], "stmts2": p["stmts2"], "u": 1, "u2": 2, "r1both": True,
+          "bps": [prep_bp(rs[""]["bp"]), prep_bp(rs["#twin"]["bp"])]}
+    if p.get("pin2"):
+        it["pin2"] = p["pin2"]
+    it.update(extra)
+    return it
+
+
+@prop("C11")
+def c11(ctx):
+    progs = with_ids(gen.generate("GenFold"), "fo")
+    ctx.cov["corpus_size"] = len(progs)
+    if ctx.tier == "quick":
+        sel = pick(progs, 330, ctx.seed, always=SMOKE.get("C11", ()))
+    else:
+        sel = progs
+        ctx.cov["exhaustive"] = True
+    ctx.cov["rule"] = ("programs = GenFold: every arithmetic operator x 7 folding sites (int declaration, inline operand, typed-literal value, "
+                       "condition constant, constant call argument, untyped constants folded in IR, int chain) x all defined pairs of 9 boundary "
+                       "operands; each with its Deconst twin (constant operand replaced by an input pinned to the same value). TLC judges the "
+                       "folded build against the interpreter whose compile-time arithmetic is Int32, compares it with the twin build in "
+                       "lock-step, and rejects any out-of-int32 constant in the blueprint")
+    ctx.assumptions = ASSUME_BASE
+
+    def item(p, rs):
+        return twin_item(p, rs)
+    for p in sel:
+        p["job_twin"] = {"src": p["src2"]}
+    run_refine(ctx, sel, {"DomCap": 64}, item_fn=item, variants=[("", {}), ("#twin", {"__twin": True})], batch_size=60)
 
 
 @prop("C20")
